@@ -11,6 +11,8 @@ pub struct Finding {
   pub what: String,
   pub repro: Option<String>,
   pub commit: Option<String>,
+  /// generator flag that excludes the finding's shape by construction (counted in evidence)
+  pub exclude: Option<String>,
 }
 
 pub fn load() -> Vec<Finding> {
@@ -29,6 +31,7 @@ pub fn load() -> Vec<Finding> {
       what: s("what").unwrap_or_default(),
       repro: s("repro"),
       commit: s("commit"),
+      exclude: s("exclude"),
     });
   }
   out
@@ -41,4 +44,11 @@ pub fn open_for(all: &[Finding], property: &str) -> Vec<Finding> {
 /// Set of open signatures of a property (suppress nothing for "fixed").
 pub fn open_sigs(all: &[Finding], property: &str) -> std::collections::HashSet<String> {
   open_for(all, property).into_iter().map(|f| f.signature).collect()
+}
+
+/// generator exclusion flags requested by open findings of a property
+pub fn excluded(property: &str, flag: &str) -> bool {
+  static CACHE: std::sync::OnceLock<Vec<(String, String)>> = std::sync::OnceLock::new();
+  let all = CACHE.get_or_init(|| load().into_iter().filter(|f| f.status == "open").filter_map(|f| f.exclude.clone().map(|e| (f.property.clone(), e))).collect());
+  all.iter().any(|(p, e)| p == property && e == flag)
 }
